@@ -718,11 +718,11 @@ fn fixed_tables() -> Vec<Tab> {
 fn print_plan_case(id: &str, stream: &str, sql: &str, tp: usize, outs: &[PlanOut], plan_err: Option<String>) {
     let ok = outs.iter().all(|o| o.ok);
     let stages: Vec<String> = outs.iter().map(|o| {
-        let mut t = o.text.clone(); if t.len() > 1500 { t.truncate(1500); t.push_str("..."); }
+        let mut t = o.text.clone(); if t.len() > 12000 { t.truncate(12000); t.push_str("..."); }
         let diff = match &o.diff { Some(d) => format!("[{}]", d.iter().map(|(x, y)| format!("[{},{}]", json_str(&x[..x.len().min(1200)]), json_str(&y[..y.len().min(1200)]))).collect::<Vec<_>>().join(",")), None => "null".into() };
         format!("{{\"stage\":\"{}\",\"ok\":{},\"bytes\":{},\"rows\":{},\"diff\":{diff},\"skipped\":{},\"why\":{},\"plan\":{}}}", o.stage, o.ok, o.bytes, o.rows,
             o.skipped.as_ref().map(|s| json_str(&s[..s.len().min(300)])).unwrap_or("null".into()),
-            o.why.as_ref().map(|s| json_str(&s[..s.len().min(1500)])).unwrap_or("null".into()), if o.ok && o.skipped.is_none() { "null".to_string() } else { json_str(&t) })
+            o.why.as_ref().map(|s| json_str(&s[..s.len().min(12000)])).unwrap_or("null".into()), if o.ok && o.skipped.is_none() { "null".to_string() } else { json_str(&t) })
     }).collect();
     let nodes: Vec<String> = outs.first().map(|o| o.text.lines().map(|l| kind_name(l.trim_start())).collect()).unwrap_or_default();
     let mut kinds: Vec<String> = nodes; kinds.sort(); kinds.dedup();
